@@ -116,6 +116,21 @@ def audit(prop_id, names):
         for n in names:
             fh.write(f'#print axioms {n}\n')
     rc, out = sh(['lake', 'env', 'lean', f], cwd=LEAN, timeout=900)
+    if rc != 0 and 'environment already contains' in out:
+        # two theorem modules of this property cannot be imported together (their lemma files define helpers
+        # of the same name, e.g. Model/Copy.lean and Lemmas/Assoc.lean both define `AY.keysNodup`):
+        # audit the modules one by one
+        rc, out = 0, ''
+        for m, path in prop_modules(prop_id):
+            own = re.findall(r'^theorem\s+(' + prop_id + r'_\w+)', strip_comments(open(path).read()), flags=re.M)
+            own = [n for n in own if n in names]
+            if not own:
+                continue
+            f1 = os.path.join(d, f'Audit{m.split(".")[-1]}.lean')
+            with open(f1, 'w') as fh:
+                fh.write(f'import {m}\nopen AY\n' + ''.join(f'#print axioms {n}\n' for n in own))
+            rc1, out1 = sh(['lake', 'env', 'lean', f1], cwd=LEAN, timeout=900)
+            rc, out = rc or rc1, out + out1
     res = {}
     # output: "'AY.C02_x' depends on axioms: [propext, ...]" or "... does not depend on any axioms"
     chunks = re.split(r"(?m)^'", out)
